@@ -141,7 +141,9 @@ func VerifC04EntryNative() {
 // VerifC09Equiv: validating with the profile text equals compiling first and
 // validating with the compiled profile, for every outcome of the stubbed stages.
 func VerifC09Equiv() {
-	data := "<<data text>>"
+	// the document may start with three arbitrary bytes (a byte order mark, blanks, ...): whatever
+	// one entry point does with them, the other does too
+	data := v.Bytes("prefix", 3*v.Choice("prefixLen", 2)) + "<<data text>>"
 	// one profile text and one document: both runs meet the same stage outcomes
 	v.ScopeShared("a")
 	r1, e1, p1 := verifCall(1, nil, data)
@@ -401,9 +403,10 @@ func VerifC09EquivNative() {
 		check(verifProfile, d)
 		return
 	}
-	check(verifProfile, `{"@id": "http://x/a", "@type": "http://a.ml/vocabularies/apiContract#EndPoint"}`)
+	prefix := string(v.ReplayBytes("prefix"))
+	check(verifProfile, prefix+`{"@id": "http://x/a", "@type": "http://a.ml/vocabularies/apiContract#EndPoint"}`)
 	for _, d := range verifValueDocs {
-		check(verifValueProfile, d)
+		check(verifValueProfile, prefix+d)
 	}
 }
 
